@@ -62,6 +62,11 @@ CHECKS["C08"] = dict(cat="exploration", technique="exhaustive enumeration of str
              text="For every struct and union with up to 2 (thorough 3) members over scalars, arrays, bit-fields of eight widths incl. three zero-width forms, nested and anonymous aggregates, the c2m-compiled program must print the same sizeof, _Alignof, offsetof of every addressable member and byte image of every bit-field as the gcc-built one; "
                   "every such type of at most 32 bytes is returned from gcc code, passed to gcc code as first argument and behind 5/6 integer and 7/8 double arguments, and passed to / returned from a c2mir callback called by gcc code, under c2m -ei and -eg, with member-wise checks on both sides.",
              note="gcc 12 on this machine is the ABI reference (including its treatment of zero-width bit-fields); three-member types with bit-fields are checked for layout only; #pragma pack and attributes are not generated", ref="§3 C08")
+CHECKS["C07"] = dict(cat="exploration", technique="exhaustive enumeration of C expression/conversion/initializer/control-flow grammar families over all arithmetic type pairs and boundary values, every c2m engine against the gcc-built program",
+             text="Every binary operator and ?: over every ordered pair of arithmetic types (quick: 8 of 15 types) and 5x5 boundary values in constant and run-time form, every cast pair, unary/++/--/compound assignment, implicit conversions at all five conversion sites, "
+                  "literals x suffixes, bit-fields (13 widths x signedness, _Bool), 46 initializer shapes x {static, automatic, run-time valued}, control-flow skeletons, switch label sets, pointer arithmetic by every index type, variadic calls and struct copies of 19 sizes "
+                  "must print the same _Generic type tag and value under c2m -ei/-eg -O2/-eb (thorough: all of -ei, -eg -O0..-O3, -el, -eb) as the program built by gcc.",
+             note="cases for which gcc prints a UB-relevant diagnostic or the UBSan-instrumented reference reports undefined behaviour are dropped together with their constant/run-time twin; programs stay inside these grammar families (no VLAs, complex, atomics, wide strings, library calls beyond printf/memset)", ref="§3 C07")
 NOT_YET = {}
 def main():
     props = [json.loads(l) for l in open(os.path.join(VERIF, "properties.jsonl"))]
